@@ -339,6 +339,56 @@ pub fn run(a: &Args, r: &mut Report) {
                 }
             }
         }
+        // 4c. the same 12-bit code where a Comm-B reply carries it: a BDS 0,5 register inside a DF20 reply. Whatever the
+        // surveillance header says (the same code, a neighbour one or two steps away, unavailable), an altitude that is
+        // reported for the register is the value of the register's own code. (Whether the register may be labelled at all
+        // when the two disagree is C03's clause, not judged here.)
+        if !m_bit {
+            let c12 = gillham::field13_to_12(code);
+            let exp = expected13(code, &t);
+            let mut hdrs = vec![code, 0u16];
+            if code & 0x10 != 0 {
+                let n = (((code >> 2) & 0x7e0) | ((code >> 1) & 0x010) | (code & 0xf)) as i32;
+                for d in [-2i32, -1, 1, 2] {
+                    if (0..2048).contains(&(n + d)) {
+                        hdrs.push(frames::ac13_from_n((n + d) as u16));
+                    }
+                }
+            } else if let Some(alt) = exp {
+                let k = (alt + 1200) / 100;
+                for d in [-1i64, 1] {
+                    if let Some(st) = t.steps.get((k + d) as usize) {
+                        hdrs.push(st.1);
+                    }
+                }
+            }
+            let tc = if code % 5 == 0 { 20 } else { 9 + (code % 10) as u8 };
+            let mb05 = frames::me_airborne(tc, 0, 0, c12, 0, (code & 1) as u8, 0x0f0f0, 0x0a0a0);
+            for (hi, hdr) in hdrs.iter().enumerate() {
+                let f = frames::df20((code % 8) as u8, 0, 0, *hdr, &mb05, addr);
+                r.evaluations += 1;
+                let res = guarded(|| Message::try_from(f.as_slice()).ok().and_then(|m| serde_json::to_value(&m).ok()));
+                match res {
+                    Err((loc, msg)) => r.violation(&format!("C13:panic:df20-bds05:{}", short_loc(&loc)), format!("DF20 with BDS 0,5 ALT={c12:#05x} panicked: {}", msg_class(&msg)), json!({"fn":"frame","frame":hexs(&f)})),
+                    Ok(None) => r.class("ac12-in-df20:reply-not-decoded"),
+                    Ok(Some(v)) => {
+                        if v["bds05"].is_null() {
+                            r.class("ac12-in-df20:register-not-labelled");
+                            continue;
+                        }
+                        let got = v["bds05"]["altitude"].as_i64();
+                        let (ok, class) = judge(exp, got, got.is_none());
+                        if ok {
+                            r.class(&format!("ac12-in-df20:{}:{class}", if hi == 0 { "header-equal" } else { "header-differs" }));
+                            r.distinct(0x6_0000_0000 | ((hi as u64) << 16) | code as u64);
+                        } else {
+                            let kind = if code & 0x10 != 0 { "q" } else { "gillham" };
+                            r.violation(&format!("C13:ac12:{kind}:in-df20"), format!("DF20 (header AC={hdr:#06x}) carrying a BDS 0,5 register with ALT={c12:#05x}: the register's altitude is reported as {:?}, standard: {}", got, show(exp)), json!({"fn":"frame","frame":hexs(&f)}));
+                        }
+                    }
+                }
+            }
+        }
         // 5. identity: the same 13 bits as a squawk through DF5 / DF21 / BDS 6,1
         {
             let p = gillham::from_field13(code);
